@@ -2,8 +2,8 @@
 # (jxl-oxide/src/aux_box.rs).   ids: toc.* / ab.*
 # toc.section_order (group_index_bitstream_order against the standard's order) lives in 70_blend.py; same module.
 _TOC = "crates/jxl-frame/src/data/toc.rs"; _TOCM = "kani/jxl-frame/toc.rs"
-_TOC_FNS = ["Toc::parse", "Toc::iter_bitstream_order", "Toc::bookmark", "Toc::total_byte_size", "Toc::is_single_entry",
-            "Toc::group_index_bitstream_order", "Toc::adjust_offsets", "FrameHeader::num_groups", "FrameHeader::num_lf_groups",
+_TOC_FNS = ["Toc::parse", "Toc::bookmark", "Toc::total_byte_size", "Toc::is_single_entry",
+            "Toc::group_index_bitstream_order", "FrameHeader::num_groups", "FrameHeader::num_lf_groups",
             "Bitstream::read_u32", "Bitstream::zero_pad_to_byte"]
 _TOC_CONTRACT = (
     "requires a frame header in the ranges Frame::parse validates (built with default_with_context, concrete size / pass count); "
@@ -13,8 +13,8 @@ _TOC_CONTRACT = (
     "parsing stops at the byte boundary after the n-th entry; groups[i].kind is the standard's section order; with s[k] = k-th U32(u(10), 1024+u(14), 17408+u(22), 4211712+u(30)) "
     "of the bit view: groups[i].size == s[P(i)], groups[i].offset == end_of_TOC + sum(s[..P(i)]) (cumulative in BITSTREAM order), total_size == sum(s); "
     "original_to_bitstream == P, bitstream_to_original[P(i)] == i, mutually inverse, both empty if not permuted; group_index_bitstream_order(kind_i) == P(i); "
-    "bookmark() == end_of_TOC; iter_bitstream_order() yields exactly n items, the k-th = (kind of the section with P(i) == k, end_of_TOC + sum(s[..k]), s[k]); "
-    "adjust_offsets(g <= end_of_TOC) subtracts g from every offset and changes nothing else")
+    "bookmark() == end_of_TOC; the table invariant toc_inv holds (maps empty or mutually inverse permutations; sections contiguous in bitstream order; "
+    "total_size == sum of sizes) -- toc.accessors_* continue from that invariant")
 for _h, _shape, _tier, _to in [
         ("parse_single_plain_contract", "1 entry (1x1 frame, 1 pass), not permuted", "quick", 600),
         ("parse_single_permuted_contract", "1 entry, permuted_toc set (the only permutation of one entry)", "quick", 600),
@@ -26,3 +26,13 @@ for _h, _shape, _tier, _to in [
     K("toc." + _h.replace("_contract", ""), ["C14", "C01"], "jxl-frame", _TOC, _TOCM, _h,
       "bounded:" + _shape + "; all entry encodings (4 selectors, all values), enough bytes offered (no end-of-data outcome)",
       _TOC_FNS, _TOC_CONTRACT, tier=_tier, timeout=_to)
+
+for _h, _shape, _tier, _to in [("1", "1 entry, permuted_toc set or not", "quick", 300), ("5_plain", "5 entries (1 LF group, 2 groups), not permuted", "quick", 300),
+                               ("5_permuted", "5 entries, every permutation", "quick", 600), ("7_permuted", "7 entries (2 groups x 2 passes), every permutation", "thorough", 1200)]:
+    K("toc.accessors_" + _h, ["C14", "C01"], "jxl-frame", _TOC, _TOCM, "toc_accessors_contract_" + _h,
+      "bounded:tables of " + _shape + "; all entry sizes, every end-of-TOC position <= usize::MAX/4",
+      ["Toc::iter_bitstream_order", "Toc::bookmark", "Toc::total_byte_size", "Toc::adjust_offsets"],
+      "requires toc == toc_model(n, P, s, base): exactly the value toc.parse_* prove Toc::parse returns (groups[i] = (standard kind i, base + sum(s[..P(i)]), s[P(i)]), "
+      "original_to_bitstream = P, bitstream_to_original = P^-1 or both empty, total_size = sum(s)); ensures bookmark() == base; iter_bitstream_order() yields exactly n items, "
+      "the k-th = (kind of the section with P(i) == k, base + sum(s[..k]), s[k]) -- contiguous from the end of the TOC, sizes adding up to total_byte_size(); "
+      "adjust_offsets(g <= base) yields toc_model(n, P, s, base - g): every offset rebased, sizes / kinds / maps / total unchanged", tier=_tier, timeout=_to)
